@@ -68,9 +68,14 @@ def run_case(c):
         return {"violations": viol, "obs": obs, "nontrivial": True, "key": "knuth", "sample": {"kind": "Knuth ranf_start(310952), 2009 refills", "ran_u[0]": got}}
     n = c["n"]
     keys = []
+    # all instances of the case are constructed first and stay alive (together with one of another dimension), so that
+    # "function (n, k) is always the same function" is also observed while other GKLS objects exist and were built later
+    pool = {k: bench.construct(("gkls", n, k)) for k in c["ks"]}
+    other = bench.construct(("gkls", 2 + (n - 1) % 4, 1 + c["ks"][0] % 100))
+    obs["live_instances_during_audit"] = len(pool) + 1
     for k in c["ks"]:
         rng = scenario.rng_for(c["seed"], "C14", "%d-%d" % (n, k))
-        p = bench.construct(("gkls", n, k))
+        p = pool[k]
         fn = p.function
         mn = fn.GKLS_minima
         M = np.array(mn.local_min, dtype=float)
@@ -191,7 +196,7 @@ def EXHAUSTIVE(tier):
 def finalize(obs, tier, stats):
     if obs.get("functions", 0) != 400:
         return "only %d of 400 functions audited" % obs.get("functions", 0), {}
-    for k in ("knuth_check", "paraboloid_points", "interior_points", "boundary_pairs", "reference_values_compared"):
+    for k in ("knuth_check", "paraboloid_points", "interior_points", "boundary_pairs", "reference_values_compared", "live_instances_during_audit"):
         if not obs.get(k):
             return "%s never observed" % k, {}
     return None, {"structure_audited": "all 400 functions"}
